@@ -858,20 +858,21 @@ Definition check (c : sexp) : sexp :=
               let obs_calls := match field1 "calls" l with Some (SL cs) => map_opt dec_call cs | _ => None end in
               let trees := (map (fun a => ao_body a) aops ++ map snd afrs)%list in
               let spec := spec_tree dc ops frs opname vars_err in
-              (* classification of defect 18 (repaired): the observation is exactly what the code before
-                 the repair computes, on a tree with a free field beneath an overflowed multiplier *)
-              let before := fst (validate_cost_trace ctxT E dt0 false fuel dc ctx0 aops afrs opname raw max) in
-              let before0 := fst (validate_cost_trace ctxT E dt0 false fuel dc ctx0 aops afrs opname raw (-1)) in
-              let is_defect18 :=
-                match spec, compare before before0 o with
-                | Some ts, None => zero_under_overflow ts
-                | _, _ => false
-                end in
               (* [std] > 0: the standard rules reject the document, which is then outside the property's
                  quantifier ("forall validated document"); ValidateDocument does not run the cost rule on
                  it, the harness applied the rule directly and only model = implementation is demanded *)
               match (match spec with Some ts => if std >? 0 then None else oracle ts max o | None => None end) with
               | Some v =>
+                  (* classification of defect 18 (repaired): the observation is exactly what the code before
+                     the repair computes, on a tree with a free field beneath an overflowed multiplier
+                     (only evaluated when the oracle failed) *)
+                  let before := fst (validate_cost_trace ctxT E dt0 false fuel dc ctx0 aops afrs opname raw max) in
+                  let before0 := fst (validate_cost_trace ctxT E dt0 false fuel dc ctx0 aops afrs opname raw (-1)) in
+                  let is_defect18 :=
+                    match spec, compare before before0 o with
+                    | Some ts, None => zero_under_overflow ts
+                    | _, _ => false
+                    end in
                   match v with
                   | SL (SSym t :: _ :: details) =>
                       if String.eqb t "oracle-fail" && is_defect18
